@@ -153,6 +153,24 @@ VARIANTS = [
     V( 'chain-stripped-block', TNET, "source.chain( msg )", "msg			= msg.lstrip( b'\\n' )\n                source.chain( msg )", fires=[ 'P-CHAIN' ] ),
     V( 'chain-stateful-default', TNET, "source = None, # Provide a cpppo.chainable, if desire, to receive into and parse from", "source	= cpppo.chainable(),", fires=[ 'P-CHAIN' ] ),
     V( 'shared-parser-rewired', LOGIX, "def setup_reset():", "def setup_rewire():\n    Logix.parser.initial[True] = None\n\ndef setup_reset():", fires=[ 'R-LOCK-2' ] ),
+    # ---- round-2 rules (second half)
+    V( 'unpack-unguarded-split', DOT, "ext,_,rest= rest.partition( '.' ) # the closing bracket may be in the last segment\n rest = rest or None", "ext,rest= rest.split( '.', 1 )", fires=[ 'D-UNPACK' ], why='defect N' ),
+    V( 'cache-not-invalidated', TIMES, "self.value += rhs\n self._str = None", "self.value	       += rhs", fires=[ 'T-CACHE' ] ),
+    V( 'cache-copy-then-mutate', TIMES, "if rhs:\n return timestamp( self.value + rhs )\n return timestamp( self )", "result			= timestamp( self )\n        if rhs:\n            result.value       += rhs\n        return result", fires=[ 'T-CACHE' ] ),
+    V( 'ext-status-kept-on-partial', LOGIX, "data.status = 0x00 if completed else 0x06\n data.pop( 'status_ext' ) # non-empty dotdict level; use pop instead of del", "data.status		= 0x00 if completed else 0x06\n                if not data.status:\n                    data.pop( 'status_ext' )", fires=[ 'S-EXT' ] ),
+    V( 'ext-status-removed-first', LOGIX, "data.status = 0x00 if completed else 0x06\n data.pop( 'status_ext' ) # non-empty dotdict level; use pop instead of del", "data.pop( 'status_ext' )\n                data.status		= 0x00 if completed else 0x06", silent=[ 'S-EXT' ] ),
+    V( 'offset-numeric-truthiness', CLIENT, "if off:\n opr['offset'] = int( off )", "off			= int( off ) if off else 0\n            if off:\n                opr['offset']	= off", fires=[ 'T-OPOFFSET' ] ),
+    V( 'gateway-iterated-outside-with', POLL, "with via: # ensure via.close_gateway invoked on any Exception\n with contextlib.closing( execute( via, **kwds )) as executor:\n # PyPy compatibility; avoid deferred destruction of generators\n results = list( executor )", "with via:\n        executor		= execute( via, **kwds )\n    with contextlib.closing( executor ):\n        results			= list( executor )", fires=[ 'P-GATEWAY' ] ),
+    V( 'load-limit-return-at-top', HFILES, "for (self._f,self._n,cur),(ts,js) in self._i:\n", "for (self._f,self._n,cur),(ts,js) in self._i:\n                    if limit is not None and len( events ) >= limit:\n                        return self.until,events\n", fires=[ 'H-LOAD' ] ),
+    V( 'tnet-stream-utf8-sig', TNET, "data[ours] = src.decode( 'utf-8' )", "data[ours]	= src.decode( 'utf-8-sig' )", fires=[ 'T-TNET' ] ),
+    V( 'tnet-stream-utf8-alias', TNET, "data[ours] = src.decode( 'utf-8' )", "data[ours]	= src.decode( 'UTF8' )", silent=[ 'T-TNET' ] ),
+    V( 'resolve-endswith-bracket', DOT, "while sum( terms.get( c, 0 ) for c in mine ):", "while not mine.endswith( ']' ):", fires=[ 'D-RESOLVE' ] ),
+    V( 'resolve-balance-by-count', DOT, "while sum( terms.get( c, 0 ) for c in mine ):", "while mine.count( '[' ) != mine.count( ']' ):", silent=[ 'D-RESOLVE' ] ),
+    V( 'merge-dedup-dict', MODBUS, "input = iter( sorted( ranges ))", "input		= iter( sorted( dict( ranges ).items() ))", fires=[ 'M-BANK' ] ),
+    V( 'merge-sorted-list', MODBUS, "input = iter( sorted( ranges ))", "input		= iter( sorted( list( ranges )))", silent=[ 'M-BANK' ] ),
+    V( 'limit-zero-ignored', AUTO, "if limit is not None:\n if isinstance( limit, type_str_base ):", "if limit:\n                if isinstance( limit, type_str_base ):", fires=[ 'R-LIMIT' ] ),
+    V( 'limit-needs-data', AUTO, "if limit is not None:\n if isinstance( limit, type_str_base ):", "if limit is not None and data is not None:\n                if isinstance( limit, type_str_base ):", fires=[ 'R-LIMIT' ] ),
+    V( 'bundle-paths-survive-flush', CLIENT, "requests = []\n requests_paths = {}", "requests	= []", fires=[ 'P-BUNDLE' ] ),
     # ---- round-2 rules
     V( 'regex-key-collision', AUTO, "while add in machine.map or add in states:", "while add in machine.map:", fires=[ 'X-FROMREGEX' ], why='defect K' ),
     V( 'regex-key-dead-collision', AUTO, "while add in machine.map or add in states:", "while add in states:", fires=[ 'X-FROMREGEX' ] ),
